@@ -67,27 +67,15 @@ def check_quote_wiring(ctx, inst, fn, pricing, key, reverse=False):
     # forward: arg0 = pools[k] (offer), arg1 = pools[1-k]; reverse: named asset is the ask: arg0 = pools[1-k] (offer), arg1 = pools[k] (ask)
     for ai in (0, 1):
         a = t["args"][ai]
-        if a["k"] not in ("copy", "move"):
-            continue
-        seen = set()
-        for site, v in P.alts_with_sites(fn, (cb, n), a["place"]):
-            if site == "entry":
-                continue
-            ks = [k for k, reg in regions.items() if site[0] in reg]
-            if len(ks) != 1:
-                inst.fail("%s:arg%d:region" % (key, ai), fn.path, common.span_of_block_term(fn, site[0]), "a reserve argument is defined outside the selection branches")
-                continue
-            k = ks[0]
-            seen.add(k)
+        for k in (0, 1):
+            v = P.val_operand_in(fn, (cb, n), a, regions[k])
             want_idx = (k if ai == 0 else 1 - k) if not reverse else (1 - k if ai == 0 else k)
             rs = set(ctx.roots(v))
             if rs != {"%s[%d].amount" % (QP, want_idx)}:
-                inst.fail("%s:arg%d:branch%d" % (key, ai, k), fn.path, common.span_of_block_term(fn, site[0]),
+                inst.fail("%s:arg%d:branch%d" % (key, ai, k), fn.path, common.span_of_block_term(fn, cb),
                           "branch `named asset is pools[%d]`: %s reserve ⊢ %s, expected pools[%d].amount" % (k, "offer" if ai == 0 else "ask", sorted(rs), want_idx))
             else:
                 inst.site("%s: named == pools[%d] -> %s reserve = pools[%d].amount" % (fn.name, k, "offer" if ai == 0 else "ask", want_idx))
-        if seen != {0, 1}:
-            inst.fail("%s:arg%d:coverage" % (key, ai), fn.path, common.span_of_block_term(fn, cb), "reserve argument %d defined in branches %s only" % (ai, sorted(seen)))
     cv = P.val_call(fn, body, cb)
     if set(ctx.roots(cv[4][2])) != {P_(fn, asset_i, ".amount")}:
         inst.fail("%s:amount" % key, fn.path, common.span_of_block_term(fn, cb), "priced amount ⊢ %s, expected the named asset's amount" % sorted(ctx.roots(cv[4][2])))
